@@ -358,6 +358,23 @@ func (bs boundSpec) matches(w ssa.Value) bool {
 	return false
 }
 
+// matchesMinus: w denotes bound - k for a constant k (`len(v)-1`, `length-1`, `len(v)+(-1)`).
+func (bs boundSpec) matchesMinus(w ssa.Value) (int64, bool) {
+	bo, ok := w.(*ssa.BinOp)
+	if !ok {
+		return 0, false
+	}
+	if k, isC := constIntVal(bo.Y); isC && bs.matches(bo.X) {
+		switch bo.Op {
+		case token.SUB:
+			return k, true
+		case token.ADD:
+			return -k, true
+		}
+	}
+	return 0, false
+}
+
 // below: v < bound (+slack) under facts.
 func (bc *boundsCtx) below(v ssa.Value, bs boundSpec, facts []edgeFact, depth int) bool {
 	if depth > 8 {
@@ -378,7 +395,17 @@ func (bc *boundsCtx) below(v ssa.Value, bs boundSpec, facts []edgeFact, depth in
 				return true
 			}
 		}
-		// v <= w-1 forms: v < w where w = bound - k ... not needed
+		// v <= bound-1 / v < bound-k forms (`i > len(v)-1` is how some people write `i >= len(v)`)
+		if k, ok := bs.matchesMinus(y); ok && x == v {
+			if (op == token.LSS && k >= -bs.slack) || ((op == token.LEQ || op == token.EQL) && k >= 1-bs.slack) {
+				return true
+			}
+		}
+		if k, ok := bs.matchesMinus(x); ok && y == v {
+			if (op == token.GTR && k >= -bs.slack) || ((op == token.GEQ || op == token.EQL) && k >= 1-bs.slack) {
+				return true
+			}
+		}
 	}
 	switch x := v.(type) {
 	case *ssa.Phi:
